@@ -218,6 +218,26 @@ def object_route(sig, fs, f_range, center, method, bk, th, fek, return_samples=T
     return bm.df_features
 
 
+def user_columns(df):
+    """the table with columns a USER added: an object-typed one, a boolean one, a float one and an integer one whose name starts like a feature; every table
+    function must carry them along untouched. (No name contains 'sample_': epoch_df shifts every column whose name CONTAINS it - the library's own tables
+    have no such column outside the sample_ prefix, so that is not a violation of C13 as stated; split / drop use the prefix, see C18.)"""
+    df = df.copy(); n = len(df)
+    df['subject'] = np.array(['s%d' % (i % 3) for i in range(n)], dtype=object)
+    df['is_ok'] = np.arange(n) % 2 == 0
+    df['rate_factor'] = np.arange(n) * 0.5 + 100.0
+    df['volt_note'] = np.arange(n)[::-1].astype(np.int64)
+    return df
+
+
+def frange(c):
+    """the band of a case as the caller might hold it: a tuple of python numbers, a LIST, or a tuple of numpy float64 scalars (the same values)"""
+    fr = c['f_range']; k = (len(c.get('sig', '')) + int(c.get('fs', 0) or 0)) % 4
+    if k == 1: return [fr[0], fr[1]]
+    if k == 2: return tuple(None if v is None else np.float64(v) for v in fr)
+    return (fr[0], fr[1])
+
+
 def raised_in_kernel(e):
     """the exception left bycycle's own code and was raised inside neurodsp (filter validation, dual-threshold detector): kernel-refused"""
     tb = e.__traceback__; files = []
